@@ -60,5 +60,39 @@ pub fn self_test() -> Result<(), String> {
     if distinct.len() < 2 {
         return Err("hash-key seam not effective: 8 seeds gave one HashMap order".into());
     }
+    if !clock_self_test() {
+        return Err("clock seam not effective: an advance of the shim's clock is not visible to Instant::now()".into());
+    }
     Ok(())
+}
+
+/// Clock seam of the same shim: every clock of this process jumps forward by `ms` (no real waiting). Returns false
+/// when the shim is not loaded (the event then does nothing and is counted as not fired).
+pub fn advance_clock_ms(ms: u32) -> bool {
+    static F: OnceLock<Option<usize>> = OnceLock::new();
+    let p = *F.get_or_init(|| unsafe {
+        let name = CString::new("verif_advance_clock_ns").unwrap();
+        let p = libc::dlsym(libc::RTLD_DEFAULT, name.as_ptr());
+        if p.is_null() {
+            None
+        } else {
+            Some(p as usize)
+        }
+    });
+    match p {
+        Some(p) => {
+            unsafe { std::mem::transmute::<usize, SetFn>(p)(ms as u64 * 1_000_000) };
+            true
+        }
+        None => false,
+    }
+}
+
+/// the clock seam is live iff an advance is visible to `Instant`
+pub fn clock_self_test() -> bool {
+    let t0 = std::time::Instant::now();
+    if !advance_clock_ms(50) {
+        return false;
+    }
+    t0.elapsed() >= std::time::Duration::from_millis(50)
 }
